@@ -130,6 +130,10 @@ func (g *c01Gen) node0(depth int, parentCfg bool) *yst {
 		l := st("leaf-list", g.name("ll"), st("type", "string"))
 		if rapid.Bool().Draw(g.t, "minmax?") {
 			l.Kids = append(l.Kids, st("min-elements", "1"), st("max-elements", "5"))
+		} else if rapid.IntRange(0, 2).Draw(g.t, "ll-defaults?") == 0 {
+			for i := 0; i < rapid.IntRange(2, 3).Draw(g.t, "ll-ndefaults"); i++ {
+				l.Kids = append(l.Kids, st("default", fmt.Sprintf("d%d", i)))
+			}
 		}
 		if cfg != parentCfg {
 			l.Kids = append(l.Kids, st("config", fmt.Sprint(cfg)))
@@ -1246,7 +1250,12 @@ func (g *c01Gen) drawMods(twin *yst) []c01Mod {
 				}
 			}
 		case "leaf-list", "list":
-			opts = append(opts, "must", "min-elements", "max-elements")
+			opts = append(opts, "must", "max-elements")
+			if !hasKid(tg.n, "default") {
+				opts = append(opts, "min-elements")
+			} else {
+				opts = append(opts, "default", "default") // (fewer values than the grouping states)
+			}
 			if !statesConfigTrue(tg.n) {
 				opts = append(opts, "config")
 			}
@@ -1313,6 +1322,17 @@ func applyMod(twin *yst, m c01Mod) {
 	n := findByPath(twin, m.Path)
 	if n == nil {
 		panic("harness: refine target not found " + strings.Join(m.Path, "/"))
+	}
+	if m.Kw == "default" && n.Kw == "leaf-list" {
+		// the refined default stands in place of all the values the leaf-list states
+		var kept []*yst
+		for _, k := range n.Kids {
+			if k.Kw != "default" {
+				kept = append(kept, k)
+			}
+		}
+		n.Kids = append(kept, st("default", m.Arg))
+		return
 	}
 	if m.Kw != "must" {
 		for _, k := range n.Kids {
